@@ -91,10 +91,21 @@ func seed() int64 {
 	return s
 }
 
-func build(id string, c config) string {
+func build(id string, c config) string { return buildWith(id, c, false) }
+
+// buildWith builds the test binary of a check; with fuzz=true it is instrumented for coverage-guided native fuzzing
+// (go test -c -fuzz) and never uses the race detector.
+func buildWith(id string, c config, fuzz bool) string {
 	bin := filepath.Join(outRoot, ".build", strings.ToLower(id)+".test")
+	if fuzz {
+		bin = filepath.Join(outRoot, ".build", strings.ToLower(id)+".fuzz.test")
+		c.race = false
+	}
 	os.MkdirAll(filepath.Dir(bin), 0o755)
 	args := []string{"test", "-c", "-tags", "verif", "-o", bin}
+	if fuzz {
+		args = append(args, "-fuzz=.")
+	}
 	if repo := os.Getenv("VERIF_REPO"); repo != "" {
 		mod, err := os.ReadFile(filepath.Join(root, "go.mod"))
 		if err != nil {
@@ -322,8 +333,9 @@ func main() {
 	harness := []string{}
 
 	if tier == "thorough" && len(c.fuzz) > 0 {
+		fbin := buildWith(id, c, true)
 		for _, ft := range c.fuzz {
-			note, viol, herr := runFuzz(id, c, bin, ft, dir)
+			note, viol, herr := runFuzz(id, c, fbin, ft, dir)
 			fuzzNotes = append(fuzzNotes, note)
 			violations = append(violations, viol...)
 			harness = append(harness, herr...)
@@ -562,6 +574,18 @@ func runFuzz(id string, c config, bin string, ft fuzzTarget, dir string) (map[st
 		}
 		return note, []string{dst + " :: " + msg}, nil
 	}
+	if strings.Contains(log, "--- FAIL") {
+		// a seed-corpus entry failed: there is no new corpus file, the log names the entry and shows the message
+		dst := filepath.Join(outRoot, "replays", id, "fuzzlog-"+ft.name+".txt")
+		os.MkdirAll(filepath.Dir(dst), 0o755)
+		os.WriteFile(dst, buf.Bytes(), 0o644)
+		note["result"] = "seed corpus entry failed, log " + dst
+		tail := log[strings.Index(log, "--- FAIL"):]
+		if len(tail) > 1200 {
+			tail = tail[:1200]
+		}
+		return note, []string{dst + " :: native fuzz target " + ft.name + " failed on a seed corpus entry: " + strings.ReplaceAll(tail, "\n", " | ")}, nil
+	}
 	note["result"] = "fuzz run error (inconclusive)"
 	tail := log
 	if len(tail) > 800 {
@@ -582,13 +606,13 @@ func replay(path string) {
 		fatal2("known_findings.json: %v", err)
 	}
 	switch {
-	case strings.HasPrefix(base, "race-") || strings.HasPrefix(base, "crash-"):
+	case strings.HasPrefix(base, "race-") || strings.HasPrefix(base, "crash-") || strings.HasPrefix(base, "fuzzlog-"):
 		fmt.Printf("%s is a saved report of a schedule-dependent failure (data race / crash); re-run the check itself:\n  ./verif.sh %s quick\n", path, id)
 		os.Exit(2)
 	case strings.HasPrefix(base, "fuzz-"):
 		// fuzz-<Target>-<hash>: run the target on exactly that corpus file
 		parts := strings.SplitN(strings.TrimPrefix(base, "fuzz-"), "-", 2)
-		bin := build(id, c)
+		bin := buildWith(id, c, true)
 		cwd := filepath.Join(outRoot, ".build", "out", id, "replay-fuzz")
 		os.RemoveAll(cwd)
 		corpus := filepath.Join(cwd, "testdata", "fuzz", parts[0])
